@@ -86,7 +86,7 @@ def check(case, work):
     env["GALOIS_VERIF_TOPO"] = str(case["threads"])
     env["GALOIS_DO_NOT_BIND_THREADS"] = "1"
     env["OMPI_MCA_mpi_yield_when_idle"] = "1"  # ranks are oversubscribed on one machine
-    cmd = ["mpirun", "--allow-run-as-root", "--oversubscribe", "-np", str(hosts), DH, gr, "-graphTranspose=" + tgr,
+    cmd = ["mpirun", "--allow-run-as-root", "--oversubscribe", "--bind-to", "none", "-np", str(hosts), DH, gr, "-graphTranspose=" + tgr,
            "-partition=" + policy, "-t", str(case["threads"]), "-vmode=dump", "-vout=" + os.path.join(work, "dump")]
     if transposed:
         cmd.append("-vtransposed")
